@@ -116,11 +116,11 @@ impl Property for C05 {
         }
     }
     fn exhaustive_part(&self, quick: bool) -> Option<String> {
-        Some(format!("all operation sequences of length <= {} over the operation alphabet (52 concrete calls) from 5 initial records, for {} families", if quick { 2 } else { 3 }, if quick { 3 } else { 6 }))
+        Some(format!("all operation sequences of length <= {} over the operation alphabet (61 to 65 concrete calls depending on the family, incl. the identity operations clone / re-decode / re-parse / serde / clone_from) from 5 initial records, for {} families", if quick { 2 } else { 3 }, if quick { 3 } else { 6 }))
     }
     fn enumerate(&self, quick: bool) -> Box<dyn Iterator<Item = Case> + Send + '_> {
         if quick {
-            Box::new([FamId::K256, FamId::CombinedEd, FamId::Var].into_iter().flat_map(|f| history::exhaustive(f, 2)).map(Case::Hist))
+            Box::new([FamId::K256, FamId::CombinedEd, FamId::Var].into_iter().flat_map(|f| history::exhaustive(f, 2)).chain(history::depth1_rest(&[FamId::K256, FamId::CombinedEd, FamId::Var])).map(Case::Hist))
         } else {
             let d3 = [FamId::K256].into_iter().flat_map(|f| history::exhaustive(f, 3));
             let d2 = ALL_FAMS.into_iter().filter(|f| *f != FamId::K256).flat_map(|f| history::exhaustive(f, 2));
